@@ -51,7 +51,27 @@ def gen_scenario(rng):
             ops.append(["new"])
         ops.append(["meas_arr"])
         ops.append(["flush"])
+    elif rng.random() < 0.7:
+        ops.append(["flush"])
     return ops, allv
+
+
+def between(rng, ops, live):
+    """operations queued after compile() and before commit_subroutine(): they belong to the NEXT
+    subroutine — gates, measurements into fresh arrays / register futures, new qubits"""
+    queued = False
+    for _ in range(rng.choice([0, 0, 1, 1, 2, 3])):
+        if not live:
+            ops.append(["new"])
+            live = True
+        r = rng.random()
+        if r < 0.45:
+            ops.append(["gate", rng.choice(["h", "x"])])
+        else:
+            ops.append([rng.choice(["meas_arr", "meas_arr", "meas_reg"])])
+            live = False
+        queued = True
+    return live, queued
 
 
 def compile_triple(rng, ops, pend_t, allv, live):
@@ -59,14 +79,12 @@ def compile_triple(rng, ops, pend_t, allv, live):
     allv.update(vals)
     del pend_t[:]
     ops.append(["compile"])
-    # operations issued between compile and commit belong to the next subroutine
-    for _ in range(rng.randint(0, 2)):
-        if not live:
-            ops.append(["new"])
-            live = True
-        ops.append(["gate", rng.choice(["h", "x"])])
+    live, q1 = between(rng, ops, live)
     ops.append(["instantiate", vals])
+    live, q2 = between(rng, ops, live) if rng.random() < 0.5 else (live, False)
     ops.append(["commit"])
+    if (q1 or q2) and rng.random() < 0.7:
+        ops.append(["flush"])   # what was queued in between is sent on its own
     return live
 
 
@@ -354,7 +372,8 @@ def run(ctx):
             okj, pre, dire = judge(ctx, ops, values, hw, script, stats)
             nontriv = any(o[0] == "rot" and o[4] for o in ops) and ops[-1][0] == "flush"
             if hw == "generic":
-                nrounds = sum(1 for o in ops if o[0] == "compile")
+                if any(ops[i][0] == "compile" and any(o[0].startswith("meas") for o in ops[i + 1: i + 1 + next((j for j, x in enumerate(ops[i + 1:]) if x[0] == "commit"), 0)]) for i in range(len(ops))):
+                    stats["results_queued_between_compile_and_commit"] = stats.get("results_queued_between_compile_and_commit", 0) + 1
                 stats["rounds>=2_same_block" if any(a.endswith("@1") for a in values) else "mixed"] = \
                     stats.get("rounds>=2_same_block" if any(a.endswith("@1") for a in values) else "mixed", 0) + 1
             ctx.note_case((json.dumps(ops), json.dumps(values), hw), nontrivial=nontriv)
